@@ -24,7 +24,8 @@ N_DET_SLOTS = 4
 N_SCORER_SLOTS = 3
 N_SHARED = 2
 
-SHARED_COSTS = [{"cls": "L2Cost"}, {"cls": "GaussianVarCost"}, {"cls": "L2Cost", "param": 0.0}, {"cls": "L1Cost"}]
+SHARED_COSTS = [{"cls": "L2Cost"}, {"cls": "GaussianVarCost"}, {"cls": "L2Cost", "param": 0.0}, {"cls": "L1Cost"},
+                {"cls": "L1Cost", "scale": 2.5}]
 SCORER_SPECS = [{"cls": "L2Cost"}, {"cls": "L2Cost", "param": 0.5}, {"cls": "GaussianVarCost"}, {"cls": "CUSUM"},
                 {"cls": "ChangeScore", "cost": {"cls": "L2Cost"}}, {"cls": "ChangeScore", "cost": {"cls": "GaussianVarCost"}},
                 {"cls": "L2Saving"}, {"cls": "Saving", "baseline_cost": {"cls": "L2Cost", "param": 0.0}},
